@@ -733,6 +733,11 @@ class Interp:
         if isinstance(o, MDict):
             o.t = V.VDict(V.d_set(V.vd(o.t), lower(k), V.store_lower(v)))
             return
+        if isinstance(o, SV):
+            # item assignment on a container that is (part of) a symbolic input: in-place mutation of the caller's object
+            self.p.oblige("frame.arguments-not-mutated", z3.BoolVal(False), "frame",
+                          detail="item assignment on a container reachable from the function's arguments", assume_after=False)
+            raise PathAbort()
         raise Unsupported(f"item assignment on {type(o).__name__}")
 
     # ------------------------------------------------------------------ iteration
